@@ -369,6 +369,7 @@ class SymArray(_nd):
     def mean(self, axis=None, **kw): return f_mean(self, axis=axis)
     def argsort(self, axis=-1, **kw): return f_argsort(self, axis=axis)
     def nonzero(self): return f_nonzero(self)
+    def searchsorted(self, v, side="left", sorter=None): return f_searchsorted(self, v, side, sorter)
 
     def astype(self, dtype, *a, **kw):
         dt = _np.dtype(dtype)
@@ -687,16 +688,26 @@ def f_outer(a, b, out=None):
     return wrap(_np.multiply.outer(_objarr(a).ravel(), _objarr(b).ravel()))
 
 
-def f_allclose(a, b, rtol=1e-5, atol=1e-8, **kw):
-    if has_sym(a) or has_sym(b):
-        raise FacadeMissing("allclose on symbolic data")
-    return _np.allclose(to_float(plain(to_obj(a))), to_float(plain(to_obj(b))), rtol=rtol, atol=atol)
+def f_isclose(a, b, rtol=1e-5, atol=1e-8, equal_nan=False):
+    """|a - b| <= atol + rtol*|b| element-wise (numpy's definition), symbolic where needed"""
+    if not (has_sym(a) or has_sym(b)):
+        return _np.isclose(to_float(plain(to_obj(a))), to_float(plain(to_obj(b))), rtol=rtol, atol=atol)
+
+    def k(x, y):
+        return abs(SymReal.lift(x) - y) <= atol + rtol * abs(SymReal.lift(y))
+    scalar = not isinstance(a, (_nd, list, tuple)) and not isinstance(b, (_nd, list, tuple))
+    r = _np.frompyfunc(k, 2, 1)(plain(to_obj(a)), plain(to_obj(b)))
+    if isinstance(r, _nd):
+        r = r.view(SymArray)
+        return unbox(r) if (scalar or r.ndim == 0) else r
+    return r
 
 
-def f_isclose(a, b, rtol=1e-5, atol=1e-8, **kw):
-    if has_sym(a) or has_sym(b):
-        raise FacadeMissing("isclose on symbolic data")
-    return _np.isclose(to_float(plain(to_obj(a))), to_float(plain(to_obj(b))), rtol=rtol, atol=atol)
+def f_allclose(a, b, rtol=1e-5, atol=1e-8, equal_nan=False):
+    r = f_isclose(a, b, rtol, atol)
+    if isinstance(r, _nd):
+        return f_all(r)
+    return r
 
 
 def f_matrix_rank(a, *args, **kw):
@@ -723,6 +734,34 @@ def f_copy(a, **kw):
     return to_obj(a).copy()
 
 
+def f_searchsorted(a, v, side="left", sorter=None):
+    """index of the first element of the (sorted) array a that is >= v (left) / > v (right); located by forking"""
+    if sorter is not None:
+        raise FacadeMissing("searchsorted with sorter")
+    xs = list(plain(to_obj(a)).ravel())
+
+    def one(val):
+        for i, x in enumerate(xs):
+            c = (SymReal.lift(x) >= val) if side == "left" else (SymReal.lift(x) > val)
+            if (is_sym(x) or is_sym(val)) and bool(c):
+                return i
+            if not (is_sym(x) or is_sym(val)) and ((x >= val) if side == "left" else (x > val)):
+                return i
+        return len(xs)
+    scalar = not isinstance(v, (_nd, list, tuple)) or (isinstance(v, _nd) and v.ndim == 0)
+    va = plain(to_obj(v))
+    if scalar:
+        return int(one(va[()]))
+    out = _np.zeros(va.shape, dtype=_np.intp)
+    for idx in _np.ndindex(*va.shape):
+        out[idx] = one(va[idx])
+    return out
+
+
+def f_digitize(x, bins, right=False):
+    return f_searchsorted(bins, x, side="left" if right else "right")
+
+
 def f_trapz(y, x=None, dx=1.0, axis=-1):
     raise FacadeMissing("trapz")
 
@@ -734,6 +773,7 @@ FUNCS = {
     "prod": f_prod, "linalg.inv": f_inv, "tensordot": f_tensordot, "dot": f_dot, "outer": f_outer,
     "allclose": f_allclose, "isclose": f_isclose, "linalg.matrix_rank": f_matrix_rank,
     "count_nonzero": f_count_nonzero, "diff": f_diff, "copy": f_copy,
+    "searchsorted": f_searchsorted, "digitize": f_digitize,
 }
 
 PASS_THROUGH = {
